@@ -313,3 +313,43 @@ Theorem vhdl_document_example_run :
   vh_run vd_chart (gen_eqs vh_fixed vd_chart) (init_config vd_chart) [(None, tt)] = Some [0; 1; 2; 4; 5; 6].
 Proof. exact vd_tree_run. Qed.
 Print Assumptions vhdl_document_example_run.
+
+(* ===================== work package `tt`: the default-engine theorems without the table hypothesis ===================== *)
+From V Require Import FlattenWf FlattenStaticCorollaries.
+
+(* WHAT: reference_step_is_default_engine_partial, reference_step_is_default_engine_inputs_partial and
+   document_vhdl_is_default_engine_partial for the charts Chart.flatten builds, WITHOUT the hypothesis trans_tableb
+   (it holds for every document, also after freezing the conditions).  For documents every static guard now follows
+   from the document predicates vh_tree_runb and ct_par_nonemptyb.  Still partial: the dynamic guard sas_guardb
+   (reference_step_is_default_engine_unguarded_refuted). *)
+Theorem document_reference_step_is_default_engine_partial : forall xv late t l x ev,
+  let c := flatten late t in
+  vh_wfb c = true -> wf_coreb c = true -> par_nonemptyb c = true ->
+  legal_configb c (l_cfg l) = true -> ascb (l_cfg l) = true ->
+  sas_guardb c l x ev = true ->
+  next_config c (l_cfg l) (option_map ev_name ev) (val_of c (l_cfg l) (x_store x)) =
+  l_cfg (fst (fst (select_and_step lg_fixed xv c l x ev))).
+Proof. exact document_reference_step_is_default_engine_partial_lemma. Qed.
+Print Assumptions document_reference_step_is_default_engine_partial.
+
+Theorem document_reference_step_is_default_engine_inputs_partial : forall xv late t val l x ev,
+  let c := flatten late t in
+  let c' := set_conds val c in
+  vh_wfb c = true -> wf_coreb c' = true -> par_nonemptyb c' = true ->
+  legal_configb c (l_cfg l) = true -> ascb (l_cfg l) = true ->
+  sas_guardb c' l x ev = true ->
+  next_config c (l_cfg l) (option_map ev_name ev) val =
+  l_cfg (fst (fst (select_and_step lg_fixed xv c' l x ev))).
+Proof. exact document_reference_step_is_default_engine_inputs_partial_lemma. Qed.
+Print Assumptions document_reference_step_is_default_engine_inputs_partial.
+
+Theorem document_vhdl_is_default_engine_static_free_partial : forall xv t l x ev,
+  let c := flatten false t in
+  vh_tree_runb t = true -> ct_par_nonemptyb t = true ->
+  legal_configb c (l_cfg l) = true -> ascb (l_cfg l) = true ->
+  vh_running c (l_cfg l) = true -> vh_event_ok c (option_map ev_name ev) = true ->
+  sas_guardb c l x ev = true ->
+  eval_eqs c (gen_eqs vh_fixed c) (l_cfg l) (option_map ev_name ev) (val_of c (l_cfg l) (x_store x)) =
+  Some (l_cfg (fst (fst (select_and_step lg_fixed xv c l x ev)))).
+Proof. exact document_vhdl_is_default_engine_static_free_partial_lemma. Qed.
+Print Assumptions document_vhdl_is_default_engine_static_free_partial.
